@@ -12,7 +12,7 @@ camp = [c for t in ("quick", "thorough") for c in m.campaigns(t) if c.name == re
 if camp.setup: camp.setup()
 case = unjsonify(rec["case"])
 print("CASE", json.dumps(rec["case"])[:3000])
-if "--arrivals" in sys.argv and hasattr(m, "PS"):
+if "--arrivals" in sys.argv and hasattr(m, "PS") and hasattr(m, "evaluate"):
     obs = m.PS.run(case)
     for a in obs.cluster.arrivals:
         if a.api in ("api_versions",): continue
